@@ -66,6 +66,9 @@ func propC16(c *Ctx, r *Report) {
 	r.rule("C16/bank-row-always-filled", 1, "the bank pass records used and requested for every block it runs in")
 	rulePassThrough(c, r, "C16/bank-row-always-filled", c.fn("node.Pegnetd.recordPegnetRequests"), "pegnet.Pegnet.UpdateBankEntry", "from V4 on the bank row of the block is filled in on every successful pass, also with no request", "the row keeps its -1/-1 'to be filled' marker, so the bank ledger does not record the amount used and requested for that block")
 	rulePayoutsPure(c, r, "C16/payouts-pure")
+	r.rule("C16/requests-unaltered", 1, "a request is recorded with the amount it was made for")
+	ruleRequestsUnaltered(c, r, "C16/requests-unaltered")
+	ruleAnyOfFlags(c, r, "C16/any-of-flags")
 	r.rule("C16/bank-update-columns", 1, "the bank row's columns receive the matching values")
 	ruleBankUpdateColumns(c, r, buildSQLCat(c), "C16/bank-update-columns")
 	r.rule("C16/request-index", 1, "a PEG request is filed under its position in the batch")
